@@ -347,6 +347,45 @@ fn venue_interest(sim: &mut Sim, ctx: &mut Ctx, b: &VenueBank) {
     sim.stats.fault("integ_venue_exchange_rate_rose");
 }
 
+/// Fault: the venue account shows an extreme (but well-formed) state - an enormous amount of
+/// liquidity per unit of collateral, no collateral outstanding, or no liquidity behind the
+/// collateral.  Conversions must then report an error or a conservative value, never wrap.
+fn extreme_venue_state(sim: &mut Sim, ctx: &mut Ctx, b: &VenueBank) {
+    let Some(mut acc) = sim.store.get(&b.acc1).cloned() else { return };
+    let which = ctx.rng.below(3);
+    match b.kind {
+        VKind::Solend => {
+            let (avail, col): (u64, u64) = match which {
+                0 => (u64::MAX / 2, ctx.rng.range(1, 1000)),
+                1 => (0, 0),
+                _ => (0, ctx.rng.range(1, 1_000_000_000)),
+            };
+            acc.data[171..179].copy_from_slice(&avail.to_le_bytes());
+            acc.data[259..267].copy_from_slice(&col.to_le_bytes());
+        }
+        VKind::Kamino => {
+            let (avail, col): (u64, u64) = match which {
+                0 => (u64::MAX / 2, ctx.rng.range(1, 1000)),
+                1 => (0, 0),
+                _ => (0, ctx.rng.range(1, 1_000_000_000)),
+            };
+            acc.data[8 + 216..8 + 224].copy_from_slice(&avail.to_le_bytes());
+            acc.data[8 + 2584..8 + 2592].copy_from_slice(&col.to_le_bytes());
+        }
+        VKind::Drift => {
+            let Some(v) = venues::parse_drift_market(&acc.data) else { return };
+            let cum: u128 = match which {
+                0 => u128::MAX / 1_000_000,
+                1 => 10_000_000_000u128 * 1_000_000_000_000,
+                _ => 1,
+            };
+            acc.data = venues::drift_market_bytes(&b.acc1, &v.mint, &v.vault, v.decimals as u8, v.market_index, cum, v.deposit_balance, v.last_interest_ts);
+        }
+    }
+    set(sim, b.acc1, acc, "oracle_venue_extreme_state");
+    sim.stats.fault("integ_venue_extreme_state");
+}
+
 fn top_up(sim: &mut Sim, ta: &Pubkey, add: u64) {
     if let Some(mut acc) = sim.store.get(ta).cloned() {
         let cur = fixtures::token_amount(&acc.data);
@@ -396,8 +435,24 @@ pub fn step(sim: &mut Sim, ctx: &mut Ctx, st: &Integ) {
     let (ui, authority, ma) = *ctx.rng.pick(&st.holders);
     let Some(ta) = ctx.world.users[ui].tokens.get(&b.keys.mint).copied() else { return };
     let signer = if ctx.rng.chance(1, 14) { ctx.world.stranger } else { authority };
-    match ctx.rng.below(10) {
+    match ctx.rng.below(11) {
         0 => venue_interest(sim, ctx, &b),
+        10 => {
+            if ctx.rng.chance(1, 4) {
+                extreme_venue_state(sim, ctx, &b);
+            } else {
+                // zero-time round trip: deposit, then take everything out again, atomically
+                let amount = ctx.rng.range(1, 50_000_000);
+                let rm = crate::world::risk_metas(&sim.store, &ma, None, Some(b.keys.bank));
+                let ixs = vec![ix::venue_deposit(&b, ma, authority, ta, amount), ix::venue_withdraw(&b, ma, authority, ta, 0, Some(true), rm)];
+                sim.stats.fault("integ_round_trip_attempted");
+                if let Some(o) = sim.apply(Event::Tx(Tx::many("integ_user", ixs))) {
+                    if o.ok() {
+                        sim.stats.fault("integ_round_trip_ok");
+                    }
+                }
+            }
+        }
         1..=5 => {
             let amount = match ctx.rng.below(8) {
                 0 => 1,
